@@ -23,5 +23,5 @@ except Exception as e: print('noevidence',e)
 PY
 )
   git -C "$REPO" checkout -- .
-  echo "$n | $((t1-t0))s | $out | $kind"
+  echo "$n | $((t1-t0))s | $out | $kind" | tee -a "$V/build/matrix.log"
 done
